@@ -735,7 +735,7 @@ def run(ctx, replay):
             lap("graph parsed")
             gates = vacuity_gate(nodes, edges)
             walks, n_items, n_classes, n_done = cover(nodes, edges, max_len=400, delim=min(consts["ByteArgs"]),
-                                                      owned=not quick)
+                                                      owned=(name == "small"))
             covered = set()
             for start, walk in walks:
                 covered.update(walk)
@@ -830,10 +830,16 @@ def run(ctx, replay):
         "writers never return a negative count, readers never return more than len(p) (undefined for bytes.Buffer too)",
         "contents longer than 96 bytes are compared after every 12th call on average and at the end of a trace; "
         "every byte that leaves the buffer through a read is compared in full",
+        "ownership: the worker keeps the returned slices / strings themselves (results up to 64 bytes, at most `hold` of them, "
+        "oldest forgotten first) and logs their current bytes after every step; an alias (Bytes, Next) is dropped - by the "
+        "model and by the worker - at the next call of any method other than Len / Bytes / String, so nothing bytes.Buffer "
+        "leaves undefined is compared; stores go through owned results and live aliases only",
     ]
-    return ctx.finish(rule="every transition of the dumped exhaustive TLC graph(s), each followed by every identification "
-                           "probe of its target state (and every Grow transition again from each constructor kind), executed "
-                           "on PrintCtx and bytes.Buffer (non-trivial = state-changing transitions) + seeded random histories "
+    return ctx.finish(rule="every class of transitions of the dumped exhaustive TLC graph(s) - (buffer state, call), and every "
+                           "store of the caller through a kept slice and every observer call per combination of kept slices - "
+                           "each followed by every identification probe of its target state (and every Grow transition again "
+                           "from each constructor kind), executed on PrintCtx and bytes.Buffer with the caller keeping the "
+                           "returned slices (non-trivial = executed state-changing transitions) + seeded random histories "
                            "(non-trivial = distinct (call, panic, error, result-size, argument-size) signatures); all "
-                           "validated by TLC against BufferTrace",
+                           "validated by TLC against BufferTrace, kept slices included",
                       exhaustive=exhaustive)
